@@ -29,13 +29,15 @@ URLS = ["a.flac", "dir/b c.mp3", "é.ogg", "http://x/y?z=1", "x"]
 
 # long values with a multi-byte character sitting across a power-of-two byte offset (error paths that shorten / copy values)
 LONGS = ["x" * k + "\u00e9" + "z" * 5 for k in (62, 63, 126, 127, 254, 255, 256, 510, 511, 1022, 1023, 4094, 4095)] + ["\u4e2d" * 100, "\U0001f3b5" * 70]
-NUMS += LONGS[4:8]
-DURS += LONGS[4:8]
-TEXT += LONGS[3:9]
-TS_ODD += LONGS[4:7]
+# every offset 63 / 64, 127 / 128, ... 1023 / 1024 in the pools of REJECTED values (plus a few more lengths: 15 / 16, 31 / 32)
+LONGS = ["x" * k + "\u00e9" + "z" * 5 for k in (14, 15, 30, 31)] + LONGS
+NUMS += LONGS[0:15]
+DURS += LONGS[0:15]
+TEXT += LONGS[3:13]
+TS_ODD += LONGS[0:15]
 RANGES_GOOD = ["1.5-3", "0-", "10.000-20.250", "0-0", "5-1", "10.5-0", "3-2.999"]     # a reversed range is still two valid times
-RANGES_ODD = ["-", "1", "a-b", "1-2-3", "-5", "1--2", "", "5-1e400", "nan-1", "1e400-", "-0-1"] + LONGS[4:6]
-ENUM_ODD = LONGS[4:8]
+RANGES_ODD = ["-", "1", "a-b", "1-2-3", "-5", "1--2", "", "5-1e400", "nan-1", "1e400-", "-0-1"] + LONGS[0:15]
+ENUM_ODD = LONGS[0:15]
 
 
 def b(s):
@@ -222,7 +224,7 @@ def pairs(rng, good, k1, k2, v1, v2):
 
 
 STICKV = ["name=value", "a=b=c", "rating=5", "=", "x=", "=y", "k=é", "note=dos line\r", "n=one\rtwo"]
-STICKV_ODD = ["novalue", "", "x"] + LONGS[4:7]
+STICKV_ODD = ["novalue", "", "x"] + LONGS[0:15]
 
 
 def offshape(rng):
